@@ -588,6 +588,7 @@ sc_MPI_Testall (int count, sc_MPI_Request * array_of_requests, int *flag,
     SC_CHECK_ABORT (array_of_requests[i] == sc_MPI_REQUEST_NULL,
                     "non-MPI MPI_Testall handles NULL requests only");
   }
+  *flag = 1;
   return sc_MPI_SUCCESS;
 #endif
 }
